@@ -12,6 +12,14 @@
   forms (`1e+21`), signs, `NaN`/`+Inf` spellings are all allowed — the theorems hold for them if the
   pair (fmtF, parseF) round-trips them.
 
+  The assumption is reduced further in the section "`%g`" below: the layout half of `%g`
+  (`gLayout`, Orb/WKTFloat.lean: strconv's `%e`/`%f` writers and the choice between them) is modelled,
+  and for EVERY sign, digit list and decimal-point position its text is proved non-empty, free of
+  delimiter bytes and of adjacent letters.  What remains assumed (`GRoundTrip`): the text of a finite
+  coordinate is `gLayout` of SOME digits (Go's shortest-digit generator is not modelled; the driver
+  checks this shape on Go's own text of every coordinate of every case), and `ParseFloat` maps the
+  text back to the same bits (the driver checks that too, on Go's own answer).
+
   `Spelled fmtF g t` (Orb/WKT.lean): `t` is a re-spelling of the text of `g` — keyword letters in
   either case, blanks at both ends, after the keyword and next to every parenthesis and comma.
   `noEmptyMemberDeep g`: no member of a multi-geometry prints as `()` — the one recorded finding.
@@ -69,6 +77,63 @@ theorem respell_invariant (g : G) (t : Str) (he : noEmptyMemberDeep g = true) (h
     (hl : ∀ x ∈ coords g, NoAdjacentLetters (fmtF x)) (h : RespellStar (marshalG fmtF g) t) :
     unmarshal parseF t = unmarshal parseF (marshalG fmtF g) :=
   respell_invariant' fmtF parseF g t he hc hl h
+
+/-! ### `%g`: the float assumption reduced to the digit generator
+
+  `gLayout neg d dp` is what `strconv.FormatFloat(x, 'g', -1, 64)` — i.e. `fmt`'s `%g` — writes once
+  the shortest digits `d` and the decimal-point position `dp` of `|x|` are known.  The three
+  text-level parts of the assumption hold for all `neg`, `d`, `dp`: -/
+
+theorem gLayout_nonempty (neg : Bool) (d : List Nat) (dp : Int) : gLayout neg d dp ≠ [] :=
+  gLayout_ne_nil' neg d dp
+
+/-- every byte is a digit, `.`, `e`, `+` or `-` … -/
+theorem gLayout_bytes (neg : Bool) (d : List Nat) (dp : Int) : ∀ b ∈ gLayout neg d dp, isGByte b = true :=
+  gLayout_bytes' neg d dp
+
+/-- … hence no blank, tab, newline, comma or parenthesis -/
+theorem gLayout_clean (neg : Bool) (d : List Nat) (dp : Int) : ∀ b ∈ gLayout neg d dp, isDelim b = false :=
+  gLayout_clean' neg d dp
+
+/-- the only letter is the `e` of the exponent form, followed by the sign of the exponent -/
+theorem gLayout_noAdjacentLetters (neg : Bool) (d : List Nat) (dp : Int) : NoAdjacentLetters (gLayout neg d dp) :=
+  gLayout_noAdjacentLetters' neg d dp
+
+/-- `FloatText` follows from the reduced assumption -/
+theorem floatText_of_gRoundTrip (x : UInt64) (h : GRoundTrip fmtF parseF x) : FloatText fmtF parseF x :=
+  floatText_of_gRoundTrip' h
+
+/-- Round trip under the reduced assumption: the `%g` text of every coordinate is `gLayout` of some
+    digits and `ParseFloat` reads it back (`GCoords`). -/
+theorem unmarshal_marshal_g (g : G) (he : noEmptyMemberDeep g = true) (hc : GCoords fmtF parseF g) :
+    unmarshal parseF (marshalG fmtF g) = .ok (canon g) :=
+  unmarshal_marshal' fmtF parseF g he (goodCoords_of_gCoords' hc)
+
+/-- the typed decision table under the reduced assumption -/
+theorem typed_accepts_own_g (g : G) (t : Str) (hs : Spelled fmtF g t) (he : noEmptyMemberDeep g = true)
+    (hc : GCoords fmtF parseF g) : typedAll parseF t = expectedTyped (kindIdx g) (.ok (canon g)) :=
+  typed_spelled' fmtF parseF g t hs he (goodCoords_of_gCoords' hc)
+
+/-- The re-spelling clause in the property's own wording under the reduced assumption (no separate
+    hypothesis about adjacent letters: it is a theorem about `gLayout`). -/
+theorem respell_invariant_g (g : G) (t : Str) (he : noEmptyMemberDeep g = true) (hc : GCoords fmtF parseF g)
+    (h : RespellStar (marshalG fmtF g) t) : unmarshal parseF t = .ok (canon g) := by
+  rw [respell_invariant' fmtF parseF g t he (goodCoords_of_gCoords' hc)
+    (fun x hx => noAdjacentLetters_of_gText' (hc x hx).shaped) h]
+  exact unmarshal_marshal' fmtF parseF g he (goodCoords_of_gCoords' hc)
+
+/-! ### the blank in front of `EMPTY` (outside the quantifier: what the code does there) -/
+
+/-- `<KEYWORD> EMPTY` needs exactly one space: with any other run of blanks `a` (none, two spaces, a tab,
+    a newline …) between a keyword of position `i` (order of `typedAll`, any letter case) and `EMPTY`
+    (any letter case), and blanks at both ends, `Unmarshal` answers `ErrNotWKT`; `POINT` (`i = 0`), which
+    has no EMPTY form, does so for the single space as well.  (With the single space the six other
+    kinds parse to their empty value: `unmarshal_spelled` on `.multiPoint []` ….) -/
+theorem empty_form_needs_single_space (i : Nat) (hi : i < 7) (k a e pre post : Str)
+    (hk : CaseVariant (kwAt i) k) (he : CaseVariant kwEmptyWord e) (ha : AllBlank a)
+    (hne : i = 0 ∨ a ≠ [cSpace]) (hpre : AllBlank pre) (hpost : AllBlank post) :
+    unmarshal parseF (pre ++ (k ++ (a ++ e)) ++ post) = .err .notWKT :=
+  empty_form_needs_single_space' parseF i hi k a e pre post hk he ha hne hpre hpost
 
 /-! ### the typed entry points: a 7 × 7 decision table -/
 
@@ -176,6 +241,22 @@ example : unmarshal parse0 (9 :: ([71] ++ flipCase 69 :: 79 :: (marshalG fmt0 g0
     (.step (.step (.refl _) (.caseL [71] ((marshalG fmt0 g0).drop 3) 69 79 (by decide) (by decide)))
       (.atStart _ 9 (by decide)))]
   exact unmarshal_marshal fmt0 parse0 g0 deep0 good0
+
+/-- the reduced assumption is satisfiable too: `1`, `2`, `-0.5`, `1e+21` are `gLayout` of the digits
+    `1`, `2`, `5` (`dp = 0`, negative), `1` (`dp = 22`) -/
+example : unmarshal parse0 (marshalG fmt0 g0) = .ok (canon g0) := unmarshal_marshal_g fmt0 parse0 g0 deep0 gcoords0
+
+example : gLayout true [5] 0 = [45, 48, 46, 53] ∧ gLayout false [1] 22 = [49, 101, 43, 50, 49] ∧
+    gLayout false [1, 2, 3, 4, 5, 6, 7] 7 = [49, 46, 50, 51, 52, 53, 54, 55, 101, 43, 48, 54] ∧
+    gLayout false [1, 2, 3, 4, 5, 6] 6 = [49, 50, 51, 52, 53, 54] ∧ gLayout false [1] 6 = [49, 48, 48, 48, 48, 48] ∧
+    gLayout true [9, 9, 9, 9] (-4) = [45, 57, 46, 57, 57, 57, 101, 45, 48, 53] ∧ gLayout false [1] (-3) = [48, 46, 48, 48, 48, 49] ∧
+    gLayout true [] 0 = [45, 48] ∧ gLayout false [5] (-323) = [53, 101, 45, 51, 50, 52] := by decide
+
+/-- `MULTIPOLYGON\tEMPTY`, `polygon  empty`, `LINESTRINGEMPTY` and `POINT EMPTY` are not WKT for this parser -/
+example : unmarshal parse0 ([] ++ (kwMultiPolygon ++ ([9] ++ kwEmptyWord)) ++ []) = .err .notWKT :=
+  empty_form_needs_single_space parse0 5 (by decide) kwMultiPolygon [9] kwEmptyWord [] []
+    (by unfold CaseVariant; decide) (by unfold CaseVariant; decide) (by unfold AllBlank; decide)
+    (.inr (by decide)) blankNil blankNil
 
 /-- `Polygon ( ( 1 2 , 2 1 ) ,\n(-0.5 -0.5) ) ` parses to the two-ring polygon -/
 example : unmarshal parse0 t2 = .ok g2 := unmarshal_spelled fmt0 parse0 g2 t2 spelled2 (by decide) good2
